@@ -25,11 +25,15 @@ RULE = ('f(z) = g(z) s(z - z0), g in {exp(a z), polynomial, cos z + 2, 1/(4 + z)
 ASSUMPTIONS = ['|value - g(z0)| <= K * error_estimate + 1e-10 * |g(z0)| with K = 1000',
                'kernels with finite singularities (log1p: w = -1, w/sin w: +-pi, tan w/w: +-pi/2) are only judged when every recorded '
                'evaluation point keeps a factor 4 of distance from them (checked from the recorder, not assumed)',
+               'non-vacuity: with the default step generator the reported error_estimate is <= 1e-8 |g(z0)| (the docstrings promise '
+               '1e-10..1e-14 on their examples; largest value seen on the unchanged tree 7e-11 over 120 000 cases), so "within the '
+               'estimate" cannot be satisfied by merely inflating the estimate',
                'regular points: a finite f(z0) is returned bit-identically and the other entries of an array are untouched',
                'radial path: method above evaluates only at Re(z - z0) > 0, below only at Re(z - z0) < 0; spiral path: the recorded '
                'offsets do not all share one direction (recorder)']
 EPS = 2.0 ** -52
 K_EST = 1000.0
+USEFUL = 1e-8
 KERNELS = ['sinc', 'expm1', 'log1p', 'w_over_sin', 'tan', 'sinc_half_sq', 'sinc_sqrt']
 GS = ['exp', 'poly', 'cos2', 'inv4']
 
@@ -132,10 +136,17 @@ def run_case(case, ctx):
         bound = K_EST * est + 1e-10 * abs(gz0)
         err = abs(v - gz0)
         ctx.maximum('residue_err/bound:p=%d' % p, err / bound)
+        ctx.maximum('residue_est/|g|:p=%d:%s:%s' % (p, path, 'default_steps' if not opts else 'user_steps'), est / abs(gz0))
         if not err <= bound:
             ctx.reject('residue_value', observed=v, expected=gz0, detail=dict(est=est, pole_order=p, order=order),
                        path=path, method=method, pole_order=p)
             return
+        if not opts:
+            ctx.count('default_estimate_usefulness_asserted')
+            if not est <= USEFUL * abs(gz0):
+                ctx.reject('default_configuration_reports_a_useless_estimate', observed=est, expected=USEFUL * abs(gz0),
+                           detail=dict(value=v, g_z0=gz0, pole_order=p), path=path, method=method, pole_order=p)
+                return
         if abs(gz0 - round(gz0.real)) > 1e-3:
             ctx.nontrivial(('residue', case['g'], method, path, isinstance(z0, complex), order, p))
         return
@@ -214,12 +225,21 @@ def run_case(case, ctx):
         if not np.isfinite(err):
             err = math.inf
         ctx.maximum('limit_err/bound:%s' % kernel, err / bound, dict(case=case))
+        ctx.maximum('limit_est/|g|:%s:%s' % (path, 'default_steps' if not opts else 'user_steps'),
+                    float(est[k if est.size > 1 else 0]) / abs(gz0), dict(case=case))
         if not err <= bound:
             ctx.reject('limit_value', observed=complex(val[k]), expected=gz0,
                        detail=dict(est=float(est[k if est.size > 1 else 0]), bound=bound, kernel=kernel, position=k,
                                    largest_step=float(np.max(np.abs(offsets))) if offsets.size else None),
                        path=path, method=method, kernel=kernel, order=order, complex_z0=isinstance(z0, complex))
             return
+        if not opts:
+            ctx.count('default_estimate_usefulness_asserted')
+            e_k = float(est[k if est.size > 1 else 0])
+            if not e_k <= USEFUL * abs(gz0):
+                ctx.reject('default_configuration_reports_a_useless_estimate', observed=e_k, expected=USEFUL * abs(gz0),
+                           detail=dict(value=complex(val[k]), g_z0=gz0, kernel=kernel), path=path, method=method, kernel=kernel)
+                return
     if abs(gz0 - round(gz0.real)) > 1e-3:
         ctx.nontrivial((kernel, case['g'], method, path, isinstance(z0, complex), order))
     if len(ctx.samples) < 3:
